@@ -565,6 +565,23 @@ def check_c17(rep):
                 parts.append(f[:rng.randrange(1, len(f))])
             else:
                 parts.append(C.from_console(proto, typ, payload, pid=rng.randrange(256)))
+        if proto == "at5" and i % 5 == 1:
+            # sub-headers of KNOWN 0xC0 sub-types that announce more than the known layout uses: non-repeating
+            # data in front of status records, control records longer than four bytes, with the bytes present
+            sub = rng.choice([0x21, 0x23, 0x33, 0x20, 0x22])
+            known = {0x21: 8, 0x23: 10, 0x33: 9, 0x20: 4, 0x22: 4}[sub]
+            nl = rng.choice([0, 0, 1, 2, 5])
+            rl = known + rng.choice([0, 0, 1, 3])
+            cnt = rng.randrange(1, 4)
+            base_rec = {0x21: [0x41, 0x80 | 50, 150, 0x80, 2, 231, 0, 0], 0x23: [0x10, 0x42, 120, 0, 2, 218, 0, 0, 0, 0],
+                        0x33: [0, 0x87, 30, 0x80, 0, 0, 0, 0, 0], 0x20: [2, 0x80, 50, 0], 0x22: [0x20, 0x4F, 0x40, 120]}[sub]
+            body = [rng.randrange(256) for _ in range(nl)]
+            for k in range(cnt):
+                rec = list(base_rec) + [rng.randrange(256) for _ in range(rl - known)]
+                rec[0] = (rec[0] & 0xF0) | k
+                body += rec
+            parts.insert(rng.randrange(len(parts) + 1),
+                         C.frame(proto, 0xB0, 0x80, rng.randrange(256), 0xC0, [sub, 0, nl >> 8, nl & 255, rl >> 8, rl & 255, cnt >> 8, cnt & 255] + body))
         b = G.Builder(proto, rng)
         b.preamble(raising_sub=rng.random() < 0.15)
         b.op(op="quiesce")
